@@ -111,7 +111,7 @@ def coord_set(name, grid, seed):
     if name == "huge":
         rows = []
         for j in range(5):
-            rows.append([[1.0e6 + 0.375, -2.0e6 - 0.625, 3.0e5 + 0.125, -7.0e5 + 0.5, 1.5e6 + 0.875][(j + 2 * d) % 5] for d, n in enumerate(grid)])
+            rows.append([[1.0e6 + 0.37, -2.0e6 - 0.61, 3.0e5 + 0.13, -7.0e5 + 0.45, 1.5e6 + 0.9][(j + 2 * d) % 5] for d, n in enumerate(grid)])
         return np.array(rows, dtype=np.float64)
     if name == "dup":
         p = [0.75 + 0.5 * d for d in range(nd)]
